@@ -11,7 +11,7 @@ CONSTANTS
  Forbid = FALSE
  Foreign = FALSE
  MaxTime = 2
- MaxEvq = 2
+ MaxEvq = 1
  MaxFaults = 0
  MaxCrash = 0
  Fresh = FALSE
